@@ -762,6 +762,7 @@ var subs = []pbt.Sub{
 	pbt.New("tiledata", 15000, 50000, genTileData, checkTileData),
 	pbt.New("path", 30000, 100000, genPath, checkTilePath),
 	pbt.New("huge", 10000, 40000, genHuge, checkHuge),
+	pbt.New("hugepublish", 2000, 4000, genHugePub, checkHugePub),
 }
 
 func TestGen(t *testing.T)    { pbt.RunAll(t, subs) }
